@@ -1804,7 +1804,7 @@ pub fn inject_runtime_fault(rng: &mut Rng, file: &mut GFile) -> Option<String> {
         return None;
     }
     let si = rng.below(nst);
-    let kind = rng.below(10);
+    let kind = rng.below(12);
     let mut stanzas = file.stanzas_mut();
     let st = &mut stanzas[si];
     let pos = rng.below(st.stmts.len() + 1);
@@ -1872,9 +1872,18 @@ pub fn inject_runtime_fault(rng: &mut Rng, file: &mut GFile) -> Option<String> {
             vec![stmt(StmtKind::Node(GVar::u("fault_n"))), stmt(StmtKind::Let(GVar::s(GExpr::var("fault_n"), "fault_tag"), GExpr::Int(1)))],
             "scoped_definition_on_graph_node",
         ),
-        _ => (
+        9 => (
             vec![stmt(StmtKind::Let(GVar::u("fault_s"), GExpr::str("text"))), stmt(StmtKind::Var(GVar::s(GExpr::var("fault_s"), "fault_tag"), GExpr::Int(1)))],
             "scoped_definition_on_string",
+        ),
+        // values nobody reads still have to be well-formed
+        10 => (
+            vec![stmt(StmtKind::Let(GVar::u("fault_unused"), GExpr::List(vec![GExpr::Int(1), GExpr::call("plus", vec![GExpr::Int(1), GExpr::str("two")])])))],
+            "type_error_inside_unused_list_literal",
+        ),
+        _ => (
+            vec![stmt(StmtKind::Let(GVar::u("fault_unused"), GExpr::Set(vec![GExpr::call("not", vec![GExpr::True, GExpr::False])])))],
+            "arity_error_inside_unused_set_literal",
         ),
     };
     for (k, x) in s.into_iter().enumerate() {
